@@ -21,7 +21,13 @@ def batch(pairs):
 
 
 def snap(s, ret):
+    lp = None
+    if s.live_points_indices is not None:
+        # the public view, read after EVERY call (the sampler reads it between a removal and the next insertion)
+        v = s.live_points
+        lp = None if v is None else [int(x) for x in v["x"]]
     return {
+        "lp_ids": lp,
         "keys": [float(v) for v in s.samples["logL"]],
         "ids": [int(v) for v in s.samples["x"]],
         "lq": [int(v) for v in s.log_q[:, 0]],
